@@ -45,6 +45,7 @@ type Conn struct {
 	latency time.Duration
 	ronce   sync.Once
 	wonce   sync.Once
+	conce   sync.Once
 }
 
 // Read reads bytes from connection into b, optionally simulating connection
@@ -112,6 +113,17 @@ type writerOnly struct {
 // Close closes the connection.
 // Any blocked Read or Write operations will be unblocked and return errors.
 func (c *Conn) Close() error {
+	// The per-shape buckets in LocalBuckets were created for this connection
+	// when it was accepted, each with its own ticker and drain goroutine; they
+	// end with the connection. (The listener's shared buckets and the global
+	// bucket of each shape belong to the listener and its configuration.)
+	c.conce.Do(func() {
+		for _, b := range c.LocalBuckets {
+			b.ReadBucket.Close()
+			b.WriteBucket.Close()
+		}
+	})
+
 	return c.conn.Close()
 }
 
